@@ -97,12 +97,24 @@ type Options struct {
 	CustomOptions bool
 }
 
-var wktPaths = []string{"google/protobuf/timestamp.proto", "google/protobuf/duration.proto", "google/protobuf/empty.proto", "google/protobuf/any.proto"}
+var wktPaths = []string{"google/protobuf/timestamp.proto", "google/protobuf/duration.proto", "google/protobuf/empty.proto", "google/protobuf/any.proto",
+	"google/protobuf/type.proto", "google/protobuf/api.proto", "google/protobuf/source_context.proto", "google/protobuf/struct.proto", "google/protobuf/any.proto", "google/protobuf/type.proto"}
 var wktTypes = map[string]string{
-	"google/protobuf/timestamp.proto": "google.protobuf.Timestamp",
-	"google/protobuf/duration.proto":  "google.protobuf.Duration",
-	"google/protobuf/empty.proto":     "google.protobuf.Empty",
-	"google/protobuf/any.proto":       "google.protobuf.Any",
+	"google/protobuf/timestamp.proto":      "google.protobuf.Timestamp",
+	"google/protobuf/duration.proto":       "google.protobuf.Duration",
+	"google/protobuf/empty.proto":          "google.protobuf.Empty",
+	"google/protobuf/any.proto":            "google.protobuf.Any",
+	"google/protobuf/type.proto":           "google.protobuf.Type",
+	"google/protobuf/api.proto":            "google.protobuf.Api",
+	"google/protobuf/source_context.proto": "google.protobuf.SourceContext",
+	"google/protobuf/struct.proto":         "google.protobuf.Struct",
+}
+
+// builtinWKTImports: what the well-known types import among themselves (public knowledge about
+// the standard files, not derived from buf). A copy supplied by the workspace imports the same.
+var builtinWKTImports = map[string][]string{
+	"google/protobuf/type.proto": {"google/protobuf/any.proto", "google/protobuf/source_context.proto"},
+	"google/protobuf/api.proto":  {"google/protobuf/source_context.proto", "google/protobuf/type.proto"},
 }
 
 // New draws a workspace.
@@ -264,6 +276,9 @@ func New(t *tape.Tape, o Options) *Workspace {
 		// the vendored copy differs from the built-in one (a trailing comment), so that a silent
 		// fall-back to the built-in copy changes the descriptor's source info as well
 		wf := &File{Module: m.Index, Path: p, Package: "google.protobuf", Syntax: "proto3", Content: o.SupplyWKT(p) + "\n// vendored copy of " + p + "\n", Message: wktTypes[p]}
+		for _, imp := range builtinWKTImports[p] {
+			wf.Imports = append(wf.Imports, Import{Path: imp, WKT: true, Used: true})
+		}
 		m.Files = append(m.Files, wf)
 		ws.Files[p] = wf
 		ws.SuppliedWKT[p] = true
@@ -394,6 +409,11 @@ func (ws *Workspace) Closure() map[string]bool {
 		if f := ws.Files[p]; f != nil {
 			for _, imp := range f.Imports {
 				visit(imp.Path)
+			}
+		} else {
+			// a built-in well-known type: it brings its own imports (which the workspace may supply)
+			for _, imp := range builtinWKTImports[p] {
+				visit(imp)
 			}
 		}
 	}
